@@ -481,7 +481,8 @@ pub fn c08_probes() -> Vec<Probe> {
         });
     }
     let mut src = render::render_source(&p, &opts);
-    src.push_str("\nconst _: () = assert!(sv::H_1_REPLY_ID != sv::H1_REPLY_ID);\n");
+    // both names must have their own builder (and thereby their own id)
+    src.push_str("\nfn vp_probe_(a: sylvia::cw_std::WasmMsg, b: sylvia::cw_std::WasmMsg) { let x = <sylvia::cw_std::WasmMsg as sv::SubMsgMethods<Empty>>::h1(a, Binary::default()).unwrap(); let y = <sylvia::cw_std::WasmMsg as sv::SubMsgMethods<Empty>>::h_1(b, Binary::default()).unwrap(); assert!(x.id != y.id); }\n");
     out.push(Probe {
         unit: Unit { name: "ids_h1_h_1".into(), source: unit_source("sylvia", &src) },
         want: Want::Compiles,
